@@ -187,6 +187,10 @@ func c11RandomConfig(rng *vRNG, cam pCamera) (*pConfig, int) {
 		return cfg, 1
 	default: // C: dynamic threshold (structural checks only)
 		cfg.Motion = pMotion{Set: map[string]bool{"count-thresh": true, "frame-compare-gap": true}, CountThresh: 1, FrameCompareGap: 1}
+		if rng.Bool() {
+			// a border wider than the camera-model default of 1
+			cfg.Motion.Set["edge-pixels"], cfg.Motion.EdgePixels = true, rng.Range(2, 4)
+		}
 		switch rng.Intn(3) {
 		case 0:
 			cfg.Motion.Set["temp-thresh-min"], cfg.Motion.TempThreshMin = true, 2000
@@ -347,6 +351,34 @@ func TestVerif_C11(t *testing.T) {
 				}
 				// background in force: fixed threshold never builds one (all zero); dynamic: within the envelope of the file
 				bg := d.Frames[0].Pix
+				if dynamic && len(d.Frames) > 0 && d.Frames[0].Background {
+					// the stored background is the one maintained under the configured edge-pixels:
+					// its border repeats the nearest pixel inside the border (C15's invariant, here on
+					// the decoded file); an all-zero background (nothing learnt yet) satisfies it too
+					e, h, w := eff.EdgePixels, len(bg), len(bg[0])
+					for y := 0; y < h && 2*e < h && 2*e < w; y++ {
+						for x := 0; x < w; x++ {
+							ny, nx := y, x
+							if ny < e {
+								ny = e
+							}
+							if ny > h-e-1 {
+								ny = h - e - 1
+							}
+							if nx < e {
+								nx = e
+							}
+							if nx > w-e-1 {
+								nx = w - e - 1
+							}
+							if bg[y][x] != bg[ny][nx] {
+								c.Violation("background-content", "dynamic threshold", fmt.Sprintf("%s: stored background border pixel (%d,%d) = %d, nearest pixel inside the %d-pixel border (%d,%d) = %d", d.Name, y, x, bg[y][x], e, ny, nx, bg[ny][nx]))
+								return
+							}
+						}
+					}
+					c.Count("dynamic_backgrounds_checked", 1)
+				}
 				if !dynamic {
 					for y := range bg {
 						for x := range bg[y] {
